@@ -215,4 +215,251 @@ void aws_cbor_encoder_write_text(struct aws_cbor_encoder *encoder, struct aws_by
 ENC_STRING_CONTRACT(CBOR_MT_TEXT)
 ;
 
+/* ------------------------------------------------------------------ RFC 8949 reader-side spec
+ * p points at the first byte of an encoded item, n bytes are available.  Written from RFC 8949 section 3 / appendix B;
+ * CBOR_IN_ACCEPT additionally encodes which well-formed heads this decoder has a representation for (it has none for
+ * simple values other than false/true/null/undefined and rejects them, as libcbor does). */
+#define CBOR_IN_MT(p) ((p)[0] >> 5)
+#define CBOR_IN_AI(p) ((p)[0] & 0x1F)
+#define CBOR_AI_ARGLEN(ai) ((size_t)((ai) < 24 ? 0 : (ai) == 24 ? 1 : (ai) == 25 ? 2 : (ai) == 26 ? 4 : (ai) == 27 ? 8 : 0))
+#define CBOR_IN_ARGLEN(p) CBOR_AI_ARGLEN(CBOR_IN_AI(p))
+#define CBOR_IN_HEADLEN(p) ((size_t)1 + CBOR_IN_ARGLEN(p))
+#define CBOR_BE16(q) ((uint64_t)(((uint64_t)(q)[0] << 8) | (uint64_t)(q)[1]))
+#define CBOR_BE32(q) ((uint64_t)(((uint64_t)(q)[0] << 24) | ((uint64_t)(q)[1] << 16) | ((uint64_t)(q)[2] << 8) | (uint64_t)(q)[3]))
+#define CBOR_BE64(q) ((CBOR_BE32(q) << 32) | CBOR_BE32((q) + 4))
+/* the argument; evaluate only when CBOR_IN_HEADLEN(p) bytes are available */
+#define CBOR_IN_ARG(p)                                                                                                 \
+    (CBOR_IN_AI(p) < 24 ? (uint64_t)CBOR_IN_AI(p)                                                                      \
+     : CBOR_IN_AI(p) == 24 ? (uint64_t)(p)[1]                                                                          \
+     : CBOR_IN_AI(p) == 25 ? CBOR_BE16((p) + 1)                                                                        \
+     : CBOR_IN_AI(p) == 26 ? CBOR_BE32((p) + 1)                                                                        \
+                           : CBOR_BE64((p) + 1))
+/* heads the decoder accepts */
+#define CBOR_IN_ACCEPT(p)                                                                                              \
+    ((CBOR_IN_MT(p) == 0 || CBOR_IN_MT(p) == 1 || CBOR_IN_MT(p) == 6)                                                  \
+         ? CBOR_IN_AI(p) <= 27                                                                                         \
+         : (CBOR_IN_MT(p) >= 2 && CBOR_IN_MT(p) <= 5)                                                                  \
+               ? (CBOR_IN_AI(p) <= 27 || CBOR_IN_AI(p) == 31)                                                          \
+               : ((CBOR_IN_AI(p) >= 20 && CBOR_IN_AI(p) <= 23) || (CBOR_IN_AI(p) >= 25 && CBOR_IN_AI(p) <= 27) ||      \
+                  CBOR_IN_AI(p) == 31))
+#define CBOR_IN_IS_STRING(p) ((CBOR_IN_MT(p) == 2 || CBOR_IN_MT(p) == 3) && CBOR_IN_AI(p) <= 27)
+/* the element (head, plus the payload of a definite string) is completely inside the n available bytes */
+#define CBOR_IN_OK(p, n)                                                                                               \
+    ((n) >= 1 && CBOR_IN_ACCEPT(p) && (n) >= CBOR_IN_HEADLEN(p) &&                                                     \
+     (!CBOR_IN_IS_STRING(p) || CBOR_IN_ARG(p) <= (n) - CBOR_IN_HEADLEN(p)))
+#define CBOR_IN_ELEMLEN(p) (CBOR_IN_HEADLEN(p) + (CBOR_IN_IS_STRING(p) ? (size_t)CBOR_IN_ARG(p) : (size_t)0))
+#define CBOR_IN_TYPE(p)                                                                                                \
+    (CBOR_IN_MT(p) == 0   ? AWS_CBOR_TYPE_UINT                                                                         \
+     : CBOR_IN_MT(p) == 1 ? AWS_CBOR_TYPE_NEGINT                                                                       \
+     : CBOR_IN_MT(p) == 2 ? (CBOR_IN_AI(p) == 31 ? AWS_CBOR_TYPE_INDEF_BYTES_START : AWS_CBOR_TYPE_BYTES)              \
+     : CBOR_IN_MT(p) == 3 ? (CBOR_IN_AI(p) == 31 ? AWS_CBOR_TYPE_INDEF_TEXT_START : AWS_CBOR_TYPE_TEXT)                \
+     : CBOR_IN_MT(p) == 4 ? (CBOR_IN_AI(p) == 31 ? AWS_CBOR_TYPE_INDEF_ARRAY_START : AWS_CBOR_TYPE_ARRAY_START)        \
+     : CBOR_IN_MT(p) == 5 ? (CBOR_IN_AI(p) == 31 ? AWS_CBOR_TYPE_INDEF_MAP_START : AWS_CBOR_TYPE_MAP_START)            \
+     : CBOR_IN_MT(p) == 6 ? AWS_CBOR_TYPE_TAG                                                                          \
+     : CBOR_IN_AI(p) <= 21 ? AWS_CBOR_TYPE_BOOL                                                                        \
+     : CBOR_IN_AI(p) == 22 ? AWS_CBOR_TYPE_NULL                                                                        \
+     : CBOR_IN_AI(p) == 23 ? AWS_CBOR_TYPE_UNDEFINED                                                                   \
+     : CBOR_IN_AI(p) == 31 ? AWS_CBOR_TYPE_BREAK                                                                       \
+                           : AWS_CBOR_TYPE_FLOAT)
+
+/* ------------------------------------------------------------------ decoder */
+#define DCC(d) ((d)->cached_context)
+#define DEC_TYPE_IS_STRING(t) ((t) == AWS_CBOR_TYPE_BYTES || (t) == AWS_CBOR_TYPE_TEXT)
+#define DEC_OK(d) (__CPROVER_is_fresh((d), sizeof(*(d))) && CUR_FIELDS_OK(&(d)->src))
+/* the cached element carries exactly what the reader-side spec sees at p (type, and the value that belongs to it) */
+#define DEC_CACHE_IS(d, p)                                                                                             \
+    (DCC(d).type == CBOR_IN_TYPE(p) &&                                                                                 \
+     ((DCC(d).type == AWS_CBOR_TYPE_UINT || DCC(d).type == AWS_CBOR_TYPE_NEGINT || DCC(d).type == AWS_CBOR_TYPE_TAG ||  \
+       DCC(d).type == AWS_CBOR_TYPE_ARRAY_START || DCC(d).type == AWS_CBOR_TYPE_MAP_START)                              \
+          ? DCC(d).u.unsigned_int_val == CBOR_IN_ARG(p)                                                                \
+      : DCC(d).type == AWS_CBOR_TYPE_BOOL ? DCC(d).u.boolean_val == (CBOR_IN_AI(p) == 21)                               \
+      : (DCC(d).type == AWS_CBOR_TYPE_BYTES || DCC(d).type == AWS_CBOR_TYPE_TEXT)                                       \
+          ? DCC(d).u.bytes_val.len == CBOR_IN_ARG(p) /* .ptr: see DEC_CACHE_PTR */                                     \
+      : (DCC(d).type == AWS_CBOR_TYPE_FLOAT && CBOR_IN_AI(p) == 27) ? F64_BITS(DCC(d).u.float_val) == CBOR_IN_ARG(p)    \
+      : (DCC(d).type == AWS_CBOR_TYPE_FLOAT && CBOR_IN_AI(p) == 26)                                                     \
+          ? F64_BITS(DCC(d).u.float_val) == F64_BITS((double)BITS_F32((uint32_t)CBOR_IN_ARG(p)))                        \
+          : 1 /* half floats: value not specified here; simple one-byte items carry no value */))
+
+/* a cached string points at its payload inside the input (pointer predicate, kept out of the nested ?:) */
+#define DEC_CACHE_PTR(d, p)                                                                                            \
+    ((DCC(d).type == AWS_CBOR_TYPE_BYTES || DCC(d).type == AWS_CBOR_TYPE_TEXT) ==> PEQ(DCC(d).u.bytes_val.ptr, (uint8_t *)(p) + CBOR_IN_HEADLEN(p)))
+
+/* s_cbor_decode_next_element: called with an empty cache and no sticky error.  Reads one element at src.
+ *   element complete and accepted -> 0, src advanced by exactly the element, cache = what the spec sees
+ *   otherwise                     -> -1, error AWS_ERROR_INVALID_CBOR raised and made sticky, src and cache untouched
+ * The input bytes are never written (not in the assigns clause). */
+static int s_cbor_decode_next_element(struct aws_cbor_decoder *decoder)
+__CPROVER_requires(DEC_OK(decoder) && decoder->error_code == 0 && DCC(decoder).type == AWS_CBOR_TYPE_UNKNOWN)
+__CPROVER_assigns(decoder->src, decoder->cached_context, decoder->error_code, g_last_error, g_raise_count)
+__CPROVER_ensures(RET == AWS_OP_SUCCESS || RET == AWS_OP_ERR)
+__CPROVER_ensures((RET == AWS_OP_SUCCESS) == CBOR_IN_OK(OLD(decoder->src.ptr), OLD(decoder->src.len)))
+__CPROVER_ensures(RET == AWS_OP_SUCCESS ==>
+                  decoder->error_code == 0 && g_raise_count == OLD(g_raise_count) &&
+                  decoder->src.len == OLD(decoder->src.len) - CBOR_IN_ELEMLEN(OLD(decoder->src.ptr)) &&
+                  PEQ(decoder->src.ptr, OLD(decoder->src.ptr) + CBOR_IN_ELEMLEN(OLD(decoder->src.ptr))) &&
+                  DEC_CACHE_IS(decoder, OLD(decoder->src.ptr)))
+__CPROVER_ensures(RET == AWS_OP_SUCCESS ==> DEC_CACHE_PTR(decoder, OLD(decoder->src.ptr)))
+__CPROVER_ensures(RET != AWS_OP_SUCCESS ==>
+                  decoder->error_code == AWS_ERROR_INVALID_CBOR && g_last_error == AWS_ERROR_INVALID_CBOR && g_raise_count == OLD(g_raise_count) + 1 &&
+                  decoder->src.len == OLD(decoder->src.len) && PEQ(decoder->src.ptr, OLD(decoder->src.ptr)) &&
+                  DCC(decoder).type == AWS_CBOR_TYPE_UNKNOWN)
+;
+
+/* half floats are decoded with ldexp(), which has no body in CBMC: ASSUMED contract (reads two bytes, any result).
+ * The encoder never writes a half, so no round-trip clause depends on it. */
+float _cbor_load_half(cbor_data source)
+__CPROVER_requires(__CPROVER_r_ok(source, 2))
+__CPROVER_assigns()
+__CPROVER_ensures(1)
+;
+
+/* aws_cbor_decoder_pop_next_<X>(decoder, out): three situations, told apart in the pre-state
+ *   sticky error          -> -1 with that error raised, nothing changes
+ *   an element is cached  -> if it has type X: 0, *out = its value, cache emptied; else -1 (UNEXPECTED_TYPE), cache kept;
+ *                            the input position does not move
+ *   cache empty           -> decode one element (see s_cbor_decode_next_element); on a type mismatch the element stays
+ *                            cached, so nothing is lost and the matching pop still gets it
+ * OUT_OLD: *out equals the value cached before the call; OUT_IN: *out equals what the reader-side spec sees at p. */
+#define DEC_SRC_SAME(d) ((d)->src.len == OLD((d)->src.len) && PEQ((d)->src.ptr, OLD((d)->src.ptr)))
+#define DEC_SRC_ADVANCED(d)                                                                                            \
+    ((d)->src.len == OLD((d)->src.len) - CBOR_IN_ELEMLEN(OLD((d)->src.ptr)) &&                                         \
+     PEQ((d)->src.ptr, OLD((d)->src.ptr) + CBOR_IN_ELEMLEN(OLD((d)->src.ptr))))
+#define DEC_POP_CONTRACT(EXPECTED, OUT_OLD, OUT_IN)                                                                    \
+    __CPROVER_requires(DEC_OK(decoder))                                                                                \
+    __CPROVER_requires(__CPROVER_is_fresh(out, sizeof(*out)))                                                          \
+    __CPROVER_assigns(g_last_error, g_raise_count)                                                                     \
+    __CPROVER_assigns(decoder->error_code == 0 : DCC(decoder).type, *out)                                              \
+    __CPROVER_assigns(decoder->error_code == 0 && DCC(decoder).type == AWS_CBOR_TYPE_UNKNOWN : decoder->src, decoder->cached_context, decoder->error_code) \
+    __CPROVER_ensures(RET == AWS_OP_SUCCESS || RET == AWS_OP_ERR)                                                      \
+    __CPROVER_ensures((RET == AWS_OP_ERR) == (g_raise_count == OLD(g_raise_count) + 1) && (RET == AWS_OP_SUCCESS) == (g_raise_count == OLD(g_raise_count))) \
+    __CPROVER_ensures(OLD(decoder->error_code) != 0 ==> RET == AWS_OP_ERR && g_last_error == OLD(decoder->error_code)) \
+    __CPROVER_ensures(OLD(decoder->error_code) == 0 && OLD(DCC(decoder).type) != AWS_CBOR_TYPE_UNKNOWN ==>             \
+                      (OLD(DCC(decoder).type) == (EXPECTED)                                                            \
+                           ? RET == AWS_OP_SUCCESS && DCC(decoder).type == AWS_CBOR_TYPE_UNKNOWN && (OUT_OLD)          \
+                           : RET == AWS_OP_ERR && g_last_error == AWS_ERROR_CBOR_UNEXPECTED_TYPE && DCC(decoder).type == OLD(DCC(decoder).type))) \
+    __CPROVER_ensures(OLD(decoder->error_code) == 0 && OLD(DCC(decoder).type) == AWS_CBOR_TYPE_UNKNOWN &&              \
+                      !CBOR_IN_OK(OLD(decoder->src.ptr), OLD(decoder->src.len)) ==>                                    \
+                      RET == AWS_OP_ERR && decoder->error_code == AWS_ERROR_INVALID_CBOR && g_last_error == AWS_ERROR_INVALID_CBOR && \
+                      DEC_SRC_SAME(decoder) && DCC(decoder).type == AWS_CBOR_TYPE_UNKNOWN)                              \
+    __CPROVER_ensures(OLD(decoder->error_code) == 0 && OLD(DCC(decoder).type) == AWS_CBOR_TYPE_UNKNOWN &&              \
+                      CBOR_IN_OK(OLD(decoder->src.ptr), OLD(decoder->src.len)) ==>                                     \
+                      decoder->error_code == 0 && DEC_SRC_ADVANCED(decoder) &&                                         \
+                      (CBOR_IN_TYPE(OLD(decoder->src.ptr)) == (EXPECTED)                                               \
+                           ? RET == AWS_OP_SUCCESS && DCC(decoder).type == AWS_CBOR_TYPE_UNKNOWN && (OUT_IN)           \
+                           : RET == AWS_OP_ERR && g_last_error == AWS_ERROR_CBOR_UNEXPECTED_TYPE &&                     \
+                                 DEC_CACHE_IS(decoder, OLD(decoder->src.ptr))))                                        \
+    __CPROVER_ensures(OLD(decoder->error_code) == 0 && OLD(DCC(decoder).type) == AWS_CBOR_TYPE_UNKNOWN &&              \
+                      CBOR_IN_OK(OLD(decoder->src.ptr), OLD(decoder->src.len)) && RET == AWS_OP_ERR ==>                \
+                      DEC_CACHE_PTR(decoder, OLD(decoder->src.ptr)))
+
+#define DEC_POP_U64(name, EXPECTED)                                                                                    \
+    int aws_cbor_decoder_pop_next_##name(struct aws_cbor_decoder *decoder, uint64_t *out)                              \
+    DEC_POP_CONTRACT(EXPECTED, *out == OLD(DCC(decoder).u.unsigned_int_val), *out == CBOR_IN_ARG(OLD(decoder->src.ptr)))
+DEC_POP_U64(unsigned_int_val, AWS_CBOR_TYPE_UINT);
+DEC_POP_U64(negative_int_val, AWS_CBOR_TYPE_NEGINT);
+DEC_POP_U64(tag_val, AWS_CBOR_TYPE_TAG);
+DEC_POP_U64(array_start, AWS_CBOR_TYPE_ARRAY_START);
+DEC_POP_U64(map_start, AWS_CBOR_TYPE_MAP_START);
+
+int aws_cbor_decoder_pop_next_boolean_val(struct aws_cbor_decoder *decoder, bool *out)
+DEC_POP_CONTRACT(AWS_CBOR_TYPE_BOOL, (*out != 0) == (OLD(DCC(decoder).u.boolean_val) != 0), *out == (CBOR_IN_AI(OLD(decoder->src.ptr)) == 21))
+;
+/* a single is widened to double; bit patterns are compared so that NaN is covered */
+#define DEC_F64_IN(p)                                                                                                  \
+    (CBOR_IN_AI(p) == 27 ? F64_BITS(*out) == CBOR_IN_ARG(p)                                                            \
+     : CBOR_IN_AI(p) == 26 ? F64_BITS(*out) == F64_BITS((double)BITS_F32((uint32_t)CBOR_IN_ARG(p))) : 1)
+int aws_cbor_decoder_pop_next_float_val(struct aws_cbor_decoder *decoder, double *out)
+DEC_POP_CONTRACT(AWS_CBOR_TYPE_FLOAT, F64_BITS(*out) == F64_BITS(OLD(DCC(decoder).u.float_val)), DEC_F64_IN(OLD(decoder->src.ptr)))
+;
+/* strings: the view handed out is the payload inside the input: it starts right behind the head and has the length
+ * the head announces (the bytes are the input's bytes: "by content" needs nothing more) */
+#define DEC_POP_STR(name, EXPECTED)                                                                                    \
+    int aws_cbor_decoder_pop_next_##name(struct aws_cbor_decoder *decoder, struct aws_byte_cursor *out)                \
+    DEC_POP_CONTRACT(EXPECTED,                                                                                         \
+                     out->len == OLD(DCC(decoder).u.bytes_val.len) && out->ptr == OLD(DCC(decoder).u.bytes_val.ptr),\
+                     out->len == CBOR_IN_ARG(OLD(decoder->src.ptr)) &&                                                 \
+                         PEQ(out->ptr, OLD(decoder->src.ptr) + CBOR_IN_HEADLEN(OLD(decoder->src.ptr))))
+DEC_POP_STR(bytes_val, AWS_CBOR_TYPE_BYTES);
+DEC_POP_STR(text_val, AWS_CBOR_TYPE_TEXT);
+
+/* peek: same three situations; never empties the cache */
+int aws_cbor_decoder_peek_type(struct aws_cbor_decoder *decoder, enum aws_cbor_type *out_type)
+__CPROVER_requires(DEC_OK(decoder))
+__CPROVER_requires(__CPROVER_is_fresh(out_type, sizeof(*out_type)))
+__CPROVER_assigns(g_last_error, g_raise_count)
+__CPROVER_assigns(decoder->error_code == 0 : *out_type)
+__CPROVER_assigns(decoder->error_code == 0 && DCC(decoder).type == AWS_CBOR_TYPE_UNKNOWN : decoder->src, decoder->cached_context, decoder->error_code)
+__CPROVER_ensures(RET == AWS_OP_SUCCESS || RET == AWS_OP_ERR)
+__CPROVER_ensures((RET == AWS_OP_ERR) == (g_raise_count == OLD(g_raise_count) + 1) && (RET == AWS_OP_SUCCESS) == (g_raise_count == OLD(g_raise_count)))
+__CPROVER_ensures(OLD(decoder->error_code) != 0 ==> RET == AWS_OP_ERR && g_last_error == OLD(decoder->error_code))
+__CPROVER_ensures(OLD(decoder->error_code) == 0 && OLD(DCC(decoder).type) != AWS_CBOR_TYPE_UNKNOWN ==>
+                  RET == AWS_OP_SUCCESS && *out_type == OLD(DCC(decoder).type))
+__CPROVER_ensures(OLD(decoder->error_code) == 0 && OLD(DCC(decoder).type) == AWS_CBOR_TYPE_UNKNOWN &&
+                  !CBOR_IN_OK(OLD(decoder->src.ptr), OLD(decoder->src.len)) ==>
+                  RET == AWS_OP_ERR && decoder->error_code == AWS_ERROR_INVALID_CBOR && g_last_error == AWS_ERROR_INVALID_CBOR &&
+                  DEC_SRC_SAME(decoder) && DCC(decoder).type == AWS_CBOR_TYPE_UNKNOWN)
+__CPROVER_ensures(OLD(decoder->error_code) == 0 && OLD(DCC(decoder).type) == AWS_CBOR_TYPE_UNKNOWN &&
+                  CBOR_IN_OK(OLD(decoder->src.ptr), OLD(decoder->src.len)) ==>
+                  RET == AWS_OP_SUCCESS && decoder->error_code == 0 && DEC_SRC_ADVANCED(decoder) &&
+                  *out_type == CBOR_IN_TYPE(OLD(decoder->src.ptr)) && DEC_CACHE_IS(decoder, OLD(decoder->src.ptr)))
+__CPROVER_ensures(OLD(decoder->error_code) == 0 && OLD(DCC(decoder).type) == AWS_CBOR_TYPE_UNKNOWN &&
+                  CBOR_IN_OK(OLD(decoder->src.ptr), OLD(decoder->src.len)) ==> DEC_CACHE_PTR(decoder, OLD(decoder->src.ptr)))
+;
+
+/* skip exactly one element (not its children): the cached one if there is one, else the next in the input */
+int aws_cbor_decoder_consume_next_single_element(struct aws_cbor_decoder *decoder)
+__CPROVER_requires(DEC_OK(decoder))
+__CPROVER_assigns(g_last_error, g_raise_count)
+__CPROVER_assigns(decoder->error_code == 0 : DCC(decoder).type)
+__CPROVER_assigns(decoder->error_code == 0 && DCC(decoder).type == AWS_CBOR_TYPE_UNKNOWN : decoder->src, decoder->cached_context, decoder->error_code)
+__CPROVER_ensures(RET == AWS_OP_SUCCESS || RET == AWS_OP_ERR)
+__CPROVER_ensures(OLD(decoder->error_code) != 0 ==> RET == AWS_OP_ERR && g_last_error == OLD(decoder->error_code))
+__CPROVER_ensures(OLD(decoder->error_code) == 0 && OLD(DCC(decoder).type) != AWS_CBOR_TYPE_UNKNOWN ==>
+                  RET == AWS_OP_SUCCESS && DCC(decoder).type == AWS_CBOR_TYPE_UNKNOWN)
+__CPROVER_ensures(OLD(decoder->error_code) == 0 && OLD(DCC(decoder).type) == AWS_CBOR_TYPE_UNKNOWN &&
+                  !CBOR_IN_OK(OLD(decoder->src.ptr), OLD(decoder->src.len)) ==>
+                  RET == AWS_OP_ERR && decoder->error_code == AWS_ERROR_INVALID_CBOR && g_last_error == AWS_ERROR_INVALID_CBOR &&
+                  DEC_SRC_SAME(decoder) && DCC(decoder).type == AWS_CBOR_TYPE_UNKNOWN)
+__CPROVER_ensures(OLD(decoder->error_code) == 0 && OLD(DCC(decoder).type) == AWS_CBOR_TYPE_UNKNOWN &&
+                  CBOR_IN_OK(OLD(decoder->src.ptr), OLD(decoder->src.len)) ==>
+                  RET == AWS_OP_SUCCESS && decoder->error_code == 0 && DEC_SRC_ADVANCED(decoder) && DCC(decoder).type == AWS_CBOR_TYPE_UNKNOWN)
+;
+
+size_t aws_cbor_decoder_get_remaining_length(const struct aws_cbor_decoder *decoder)
+__CPROVER_requires(DEC_OK(decoder))
+__CPROVER_assigns()
+__CPROVER_ensures(RET == decoder->src.len)
+;
+
+/* ------------------------------------------------------------------ construction / observation (base case of the induction over call sequences) */
+#include "contracts/allocator.h"
+/* a new encoder satisfies ENC_OK, is empty and has 256 bytes of storage */
+struct aws_cbor_encoder *aws_cbor_encoder_new(struct aws_allocator *allocator)
+__CPROVER_requires(allocator != NULL)
+__CPROVER_assigns()
+__CPROVER_ensures(__CPROVER_is_fresh(RET, sizeof(*RET)) && RET->allocator == allocator && RET->encoded_buf.allocator == allocator &&
+                  RET->encoded_buf.len == 0 && RET->encoded_buf.capacity == 256 && __CPROVER_is_fresh(RET->encoded_buf.buffer, 256))
+;
+/* a new decoder: empty cache, no error, src as given; every other byte zero (witness g_j over the object) */
+struct aws_cbor_decoder *aws_cbor_decoder_new(struct aws_allocator *allocator, struct aws_byte_cursor src)
+__CPROVER_requires(allocator != NULL)
+__CPROVER_assigns()
+__CPROVER_ensures(__CPROVER_is_fresh(RET, sizeof(*RET)) && RET->allocator == allocator && RET->src.len == src.len && RET->src.ptr == src.ptr &&
+                  DCC(RET).type == AWS_CBOR_TYPE_UNKNOWN)
+__CPROVER_ensures(g_j >= offsetof(struct aws_cbor_decoder, error_code) && g_j < offsetof(struct aws_cbor_decoder, error_code) + sizeof(int) ==>
+                  ((const uint8_t *)RET)[g_j] == 0)
+;
+/* the encoded data is exactly the bytes appended so far */
+struct aws_byte_cursor aws_cbor_encoder_get_encoded_data(const struct aws_cbor_encoder *encoder)
+__CPROVER_requires(ENC_OK(encoder))
+__CPROVER_assigns()
+__CPROVER_ensures(RET.len == EB(encoder).len && RET.ptr == EB(encoder).buffer)
+;
+/* reset empties the encoder and keeps its storage */
+void aws_cbor_encoder_reset(struct aws_cbor_encoder *encoder)
+__CPROVER_requires(ENC_OK(encoder))
+__CPROVER_assigns(EB(encoder).len)
+__CPROVER_ensures(EB(encoder).len == 0 && EB(encoder).capacity == OLD(EB(encoder).capacity) && EB(encoder).buffer == OLD(EB(encoder).buffer))
+;
+
 #endif
